@@ -53,6 +53,10 @@ def call_getter(p, name):
     return getattr(p, name)()
 
 
+class _BlockBoom(Exception):
+    pass
+
+
 def make_attrs(spec):
     """Plan value -> the object handed to as_dict(attrs=...)."""
     if not (isinstance(spec, dict) and "iterable" in spec):
@@ -632,6 +636,8 @@ class Threads(EngineBase):
                         ops.append({"op": "block", "gets": [
                             rng.choice(getters)
                             for _ in range(rng.randrange(0, 4))]})
+                        if rng.random() < 0.2:
+                            ops[-1]["raise"] = True
                     elif role == "oneshot" and r < 0.8:
                         ops.append({"op": "as_dict", "attrs": sorted(
                             rng.sample(getters, rng.randrange(1, 4)))})
@@ -843,6 +849,8 @@ class Threads(EngineBase):
                 V(prog[:3] + ".thread_crash", [type(e).__name__], prog,
                   "thread %d died with %r" % (t, e))
         self._shared = shared
+        for kk_, vv_ in (shared.get("probes") or {}).items():
+            probes[kk_] = probes.get(kk_, 0) + vv_
         checker = getattr(self, "check_" + prog)
         checker(W, psutil, k, plan, records, V, probes, keys)
         crit = [f for f in fp if any(s in f[2] for s in (
@@ -893,6 +901,14 @@ class Threads(EngineBase):
                                         raise
                                     vals.append((g, v0, a0, ("exc", e),
                                                  k.version))
+                            if op.get("raise"):
+                                # the application's own code fails inside
+                                # the block
+                                raise _BlockBoom()
+                    except _BlockBoom:
+                        probes_local = shared.setdefault("probes", {})
+                        probes_local["block_left_by_exception"] = \
+                            probes_local.get("block_left_by_exception", 0) + 1
                     finally:
                         blocks_active.remove(me)
                     rec["out"] = ("value", vals)
